@@ -719,7 +719,7 @@ canary('c07-monitor-payload', 'C07', CONN, """            reference: OwnedTerm::
 
     pub async fn demonitor(""", 'TABLE:')
 canary('c07-mode-inverted', 'C07', CONN, ".map(|f| !f.has(DistributionFlags::DIST_HDR_ATOM_CACHE))", ".map(|f| !f.has(DistributionFlags::DIST_MONITOR))", 'mode-selection')
-canary('c07-passthrough-marker', 'C07', CONN, "                stream.write_u32(total_len as u32).await?;\n                stream.write_u8(PASS_THROUGH).await?;\n                stream.write_all(&control_encoded).await?;\n                stream.flush().await?;", "                stream.write_u32(total_len as u32).await?;\n                stream.write_u8(DIST_HEADER).await?;\n                stream.write_all(&control_encoded).await?;\n                stream.flush().await?;", 'WIRE:')
+canary('c07-passthrough-marker', 'C07', CONN, "                stream.write_u32(frame_len(total_len)?).await?;\n                stream.write_u8(PASS_THROUGH).await?;\n                stream.write_all(&control_encoded).await?;\n                stream.flush().await?;", "                stream.write_u32(total_len as u32).await?;\n                stream.write_u8(DIST_HEADER).await?;\n                stream.write_all(&control_encoded).await?;\n                stream.flush().await?;", 'WIRE:')
 
 # ---- C15 ----
 DEF = 'crates/erltf_serde/src/de.rs'
@@ -1195,3 +1195,4 @@ benign('benign-c01-u32-from-le-bytes', 'C01', DEC, """    Some(
         *slot = d;
     }
     Some(u32::from_le_bytes(bytes))""")
+canary('c07-prefix-truncating-cast', 'C07', CONN, "stream.write_u32(frame_len(total_len)?).await?;", "stream.write_u32(total_len as u32).await?;", 'prefix-not-truncated')
